@@ -317,6 +317,10 @@ func unmarshalAsCountersignature(value cbor.RawMessage) (any, error) {
 	if err := result1.UnmarshalCBOR(value); err == nil {
 		return &result1, nil
 	}
+	if len(value) == 0 || value[0]>>5 != 4 { // major type 4: array
+		// the generic decoder would skip a tag in front of the list
+		return nil, errors.New("invalid Countersignature object / list of objects")
+	}
 	var items []cbor.RawMessage
 	if err := decMode.Unmarshal(value, &items); err == nil && len(items) > 0 {
 		result2 := make([]*Countersignature, 0, len(items))
